@@ -460,6 +460,17 @@ def _invalidate(ctx: Ctx) -> None:
     pl = P.cls(f"{BASE}.Pipeline")
     pci = pl.methods["_clear_internal_cache"]
     ctx.tri("6-invalidate", pci, pci.node, "clear_cached_properties(self" in norm(pci.node), False, "Pipeline clears all its cached properties", "", "Pipeline._clear_internal_cache not recognised", key="pipeline-clear")
+    # ... for instances of SUBCLASSES as well: clear_cached_properties(obj) without `until_type` walks no further than type(obj), so
+    # the cached properties that the class itself defines are only cleared for its subclasses when the class is named
+    for cls_, ci_ in ((pf, ci), (pl, pci)):
+        calls_ = [c for c in ast.walk(ci_.node) if isinstance(c, ast.Call) and dotted(c.func).rsplit(".", 1)[-1] == "clear_cached_properties"]
+        if not calls_:
+            continue
+        until = calls_[0].args[1] if len(calls_[0].args) > 1 else next((k.value for k in calls_[0].keywords if k.arg == "until_type"), None)
+        names_ok = until is not None and norm(until) in {c_.name for c_ in P.mro(cls_.qualname)} | {"type(self).__mro__[-2]"}
+        ctx.tri("6-invalidate", ci_, calls_[0], names_ok, until is None, f"{cls_.name}._clear_internal_cache clears the cached properties defined by {cls_.name} for instances of subclasses too",
+                f"`{norm(calls_[0])}` gives no `until_type`: for an instance of a subclass of {cls_.name} only the cached properties the subclass itself defines are cleared - graph, defaults, output_to_func ... of {cls_.name} stay as they "
+                "were, so after add / drop / update_* the object keeps answering from the old structure (new functions unknown, removed ones still run)", f"until_type `{norm(until) if until is not None else ''}` not recognised", key=f"clear-for-subclasses {cls_.name}")
     m = 0
     for name, fn in pl.methods.items():
         if name in ("__init__",) or fn.is_property:
@@ -483,6 +494,7 @@ def _invalidate(ctx: Ctx) -> None:
 
 B, R, PF = "pipefunc/_pipeline/_base.py", "pipefunc/map/_run.py", "pipefunc/_pipefunc.py"
 MUTANTS = [
+    Mutant("pipeline-clear-without-until-type-F45", "pipefunc/_pipeline/_base.py", "        clear_cached_properties(self, Pipeline)  # also when `self` is an instance of a subclass\n", "        clear_cached_properties(self)\n", ("C02.6-invalidate",), why="original F45"),
     Mutant("swap-arms-get-func-args", B, "            if arg in func._bound:\n                value = func._bound[arg]\n            elif arg in flat_scope_kwargs:\n                value = flat_scope_kwargs[arg]\n",
            "            if arg in flat_scope_kwargs:\n                value = flat_scope_kwargs[arg]\n            elif arg in func._bound:\n                value = func._bound[arg]\n", ("C02.1-precedence",)),
     Mutant("supplied-from-memo", B, "            elif arg in flat_scope_kwargs:\n                value = flat_scope_kwargs[arg]\n", "            elif arg in all_results:\n                value = all_results[arg]\n", ("C02.1-precedence",), why="seeded C02/1"),
